@@ -70,6 +70,57 @@ pub fn minimise(mut case: Case, prop: &str, rule: Option<&str>, budget: u64) -> 
         Plan::Scripted { decisions, .. } => decisions.len(),
         _ => 0,
     };
+    // 2b. a violation inside a stop sweep or a many-roots item: keep only the one failing search
+    if case.mode == Mode::Direct {
+        if let Some((_, v)) = fails(&mut ctx, &case) {
+            let at = v.at as usize;
+            if at < case.items.len() {
+                if let (Some(k), true) = (v.k, case.items[at].sweep.is_some()) {
+                    let mut c2 = case.clone();
+                    c2.items[at].sweep = None;
+                    c2.items[at].stop_at = Some(k);
+                    c2.items[at].isolated = true;
+                    if fails(&mut ctx, &c2).is_some() {
+                        case = c2;
+                    }
+                }
+                if case.items[at].walks.is_some() {
+                    // the detail names the moves of the failing search: "... moves [a b c] depth ..."
+                    if let Some(ms) = v.detail.split("moves [").nth(1).and_then(|r| r.split(']').next()) {
+                        let failing: Vec<String> = ms.split_ascii_whitespace().map(|x| x.to_string()).collect();
+                        // keep the walks (they fill the table) but halve them while the explicit failing search still fails
+                        let mut c2 = case.clone();
+                        let mut extra = c2.items[at].clone();
+                        extra.walks = None;
+                        extra.moves = failing;
+                        c2.items.insert(at + 1, extra);
+                        loop {
+                            let mut c3 = c2.clone();
+                            let n = c3.items[at].walks.as_ref().map(|w| w.n).unwrap_or(0);
+                            if n <= 1 {
+                                break;
+                            }
+                            c3.items[at].walks.as_mut().unwrap().n = n / 2;
+                            let still = {
+                                let (o, an, _) = crate::evaluate(&c3);
+                                let _ = o;
+                                an.viols.iter().any(|x| x.prop == ctx.prop && x.rule == ctx.rule && x.at as usize == at + 1)
+                            };
+                            ctx.runs += 1;
+                            if still && ctx.runs < ctx.budget {
+                                c2 = c3;
+                            } else {
+                                break;
+                            }
+                        }
+                        if fails(&mut ctx, &c2).is_some() {
+                            case = c2;
+                        }
+                    }
+                }
+            }
+        }
+    }
     if let Plan::Scripted { .. } = case.plan {
         // 3. drop workload steps / items
         match case.mode {
